@@ -4,6 +4,7 @@ import PyTrie.Lemmas.ReadRefines
 import PyTrie.Lemmas.IterRefines
 import PyTrie.Lemmas.RawHistory
 import PyTrie.Lemmas.RawHistoryGet
+import PyTrie.Lemmas.BinRawHistory
 import PyTrie.Lemmas.YellowPaper
 /-! # The raw-level write path refines the effect layer (tightens the tie for C01, C02, C04, C05, C06, C07)
 
@@ -137,5 +138,32 @@ theorem history_get (H : Bytes → Bytes) (hlen : ∀ b, (H b).length = 32) (ops
     ∃ db, rawRun H ops (blankRoot H, []) = .ok (rootHash H (run ops), db) ∧
       getD H db (rootHash H (run ops)) (nibs key) = .ok (spec ops key) :=
   rawRun_get H hlen ops T s h hbk hsm key
+
+end PyTrie.Props.Raw
+
+/-! ## Whole histories of the binary trie at raw level (C12)
+
+`BinRaw.rawSet` is `BinaryTrie._set` (with `_set_kv_node`, `_set_branch_node`, `_hash_and_save`) over node hashes and a
+database of encoded nodes; `binRawRun` threads root hash and database through a history, as the code does.
+`BinReach H ops t`: the tree-level history of accepted calls on non-empty keys, with the run-level no-collision facts of
+every step. -/
+namespace PyTrie.Props.Raw
+open PyTrie PyTrie.Bin PyTrie.BinRaw
+open PyTrie.Props.C12 (Op run spec)
+
+/-- the raw-level run returns the root hash of the tree-level history and a database storing that whole tree -/
+theorem bin_history (H : Bytes → Bytes) (hlen : ∀ b, (H b).length = 32) (ops : List Op) (t : Option BNode) (h : BinReach H ops t) :
+    ∃ st, binRawRun H ops (H [], { db := [] }) = .ok (rootOf H t, st) ∧ (∀ n, t = some n → AllStored H st.db n) :=
+  binRawRun_refines H hlen ops t h
+
+theorem bin_history_tree (H : Bytes → Bytes) (ops : List Op) (t : Option BNode) (h : BinReach H ops t) : t = run ops :=
+  binReach_run H ops t h
+
+/-- **end to end at raw level**: `BinaryTrie.get` over the database the raw-level run produced returns the map model's value -/
+theorem bin_history_get (H : Bytes → Bytes) (hlen : ∀ b, (H b).length = 32) (ops : List Op) (t : Option BNode) (h : BinReach H ops t)
+    (k : Bits) :
+    ∃ st, binRawRun H ops (H [], { db := [] }) = .ok (rootOf H (run ops), st) ∧
+      bgetD (H []) st.db (k.length + 1) (rootOf H (run ops)) k = .ok (spec ops k) :=
+  binRawRun_get H hlen ops t h k
 
 end PyTrie.Props.Raw
